@@ -57,6 +57,7 @@ type Engine struct {
 	strCodes     map[string]int
 	initDone     map[*ssa.Package]bool
 	sess         *smt.Session
+	Concrete     *ConcreteInputs // when set: nondets and choices come from this table (concolic replay)
 }
 
 // WriteModFile creates go.verif.mod / go.verif.sum in dir, replacing the cgo gosensors module.
@@ -242,4 +243,11 @@ func (e *Engine) Close() {
 	if e.sess != nil {
 		e.sess.Close()
 	}
+}
+
+// ConcreteInputs drives the interpreter with fixed inputs: every Nondet returns the table value
+// (zero when absent) and every Choice its recorded branch, so exactly one path is executed.
+type ConcreteInputs struct {
+	Values  map[string]*smt.Term
+	Choices map[string]int
 }
